@@ -58,6 +58,13 @@ func (s *state) Persistent() types.PersistentState {
 }
 
 func (s *state) getLog(index uint64) (*types.PooledBuffer, error) {
+	// A head truncation that ends inside the tail segment only updates MinIndex
+	// in this state's copy of the segment info, the tail writer still has the
+	// info it was created with and would happily return truncated entries.
+	if s.tail != nil && index < s.firstIndex() {
+		return nil, ErrNotFound
+	}
+
 	// Check the tail writer first
 	if s.tail != nil {
 		raw, err := s.tail.GetLog(index)
